@@ -141,6 +141,15 @@ func VerifC16_SystemEntities() {
 	for k := range ops {
 		ops[k] = verifSymSysOp(nSlots)
 	}
+	// the transaction is started with an ordinary context (system contexts are
+	// derived per operation) or with a system context handed to Db.Update itself,
+	// which then applies to every operation
+	outerSys := verifrt.Bool("outer.sysctx")
+	if outerSys {
+		for k := range ops {
+			ops[k].sysCtx = true
+		}
+	}
 	// reference model of the transaction: stops at the first refused operation
 	np, ns, ng := append([]bool{}, present...), append([]bool{}, system...), append([]int{}, gen...)
 	accept := true
@@ -172,10 +181,14 @@ func VerifC16_SystemEntities() {
 		}
 	}
 	g2 := append([]int{}, gen...)
-	err := env.db.Update(NewMutateContext(context.Background()), func(ctx MutateContext) error {
+	var outer MutateContext = NewMutateContext(context.Background())
+	if outerSys {
+		outer = outer.GetSystemContext()
+	}
+	err := env.db.Update(outer, func(ctx MutateContext) error {
 		for _, op := range ops {
 			c := ctx
-			if op.sysCtx {
+			if op.sysCtx && !outerSys {
 				c = ctx.GetSystemContext()
 			}
 			var err error
